@@ -1,6 +1,6 @@
 (* extraction of the VM model: ExtrOcamlBasic only; N / Z / positive / nat stay inductive *)
 Require Extraction.
 Require Import ExtrOcamlBasic.
-From MS Require Import Vm.Model.
+From MS Require Import Vm.Model Verify.Check.
 Extraction Language OCaml.
-Extraction "vm_model.ml" execute.
+Extraction "vm_model.ml" execute certify infer check.
